@@ -847,3 +847,15 @@ SIG_STORE = "x/cfesignature/keeper/msg_server_store_signature.go"
 fire("c11-signature-timestamp-in-local-zone", "C11", ["C11.inventory"],
      (SIG_STORE, "	signatureObject.Timestamp = ctx.BlockTime().String()", "	signatureObject.Timestamp = time.Unix(ctx.BlockTime().Unix(), 0).String()"),
      (SIG_STORE, "import (\n", "import (\n	\"time\"\n"))
+
+# ---------------- round-3 batch D derived ----------------
+C18C_OLD1 = "		calculatedShare := calculatePercentage(share.Share, coinsToDistributeDec)\n		defaultShare = defaultShare.Sub(calculatedShare)\n		if share.Destination.Type == types.Main {\n			continue\n		}"
+C18C_NEW1 = "		calculatedShare := calculatePercentage(share.Share, coinsToDistributeDec)\n		if share.Destination.Type == types.Main {\n			leftInMain = leftInMain.Add(calculatedShare...)\n			continue\n		}\n		defaultShare = defaultShare.Sub(calculatedShare)"
+silent("c04-main-share-kept-aside-and-subtracted-later", ["C04", "C03", "C18"],
+     (DISTR, "	defaultShare := coinsToDistributeDec\n", "	defaultShare := coinsToDistributeDec\n	leftInMain := sdk.NewDecCoins()\n"),
+     (DISTR, C18C_OLD1, C18C_NEW1),
+     (DISTR, "	accountDefault := subDistributor.Destinations.GetPrimaryShare()\n", "	defaultShare = defaultShare.Sub(leftInMain)\n	accountDefault := subDistributor.Destinations.GetPrimaryShare()\n"))
+fire("c18-primary-event-reports-amount-before-main-share", "C18", ["C18.amount"],
+     (DISTR, "	defaultShare := coinsToDistributeDec\n", "	defaultShare := coinsToDistributeDec\n	leftInMain := sdk.NewDecCoins()\n"),
+     (DISTR, C18C_OLD1, C18C_NEW1),
+     (DISTR, "		localRemains = k.addSharesToAccountState(ctx, localRemains, &accountDefault, defaultShare, findFunc)", "		localRemains = k.addSharesToAccountState(ctx, localRemains, &accountDefault, defaultShare.Sub(leftInMain), findFunc)"))
